@@ -372,7 +372,7 @@ impl<C: CrcCalculator> Rx<C> {
         RxOut { res: res2, returned, consumed }
     }
 
-    pub fn ev_peek(&mut self, out: &mut Out, bytes: &[u8]) {
+    pub fn ev_peek(&mut self, out: &mut Out, bytes: &[u8], enc: bool) {
         let r = catch_unwind(AssertUnwindSafe(|| self.d.get_label_or_frag_id(bytes))).ok();
         let jres = match &r {
             None => Obj::new().str("t", "panic").end(),
@@ -388,7 +388,7 @@ impl<C: CrcCalculator> Rx<C> {
                 Obj::new().str("t", "err").str("e", n).end()
             }
         };
-        out.emit(&Obj::new().str("ev", "peek").bytes("bytes", bytes).raw("res", &jres).end());
+        out.emit(&Obj::new().str("ev", "peek").bytes("bytes", bytes).boolean("enc", enc).raw("res", &jres).end());
     }
 
     /// Final accounting: take everything out of the real memory.
